@@ -5,7 +5,8 @@ LEVEL = "proof"
 RULE = ("re-registrations of one (password, credential id, setup) on independent blinding tapes: masking key equal, request "
         "different; pairs of credential ids (empty, prefixes, long), passwords and setups (sharing / not sharing the seed): masking "
         "keys differ; server evaluation compared across registration start / login start, setups that share the seed but not the "
-        "static key, with and without a record. distinct = distinct (suite, op, args)")
+        "static key, with and without a record; identifiers related by digest / truncation evaluate under other keys; the "
+        "evaluation replayed on the model byte for byte; a setup restored from native bytes / serde answers as the live one. distinct = distinct (suite, op, args)")
 ASSUMPTIONS = ["separation holds up to explicit collision events (Bad); group laws are hypotheses"]
 
 
@@ -26,6 +27,17 @@ def oblivious(ctx, pw, cred):
                              (pw, b"", "empty credential id") if cred else (pw, b"q" * 400, "long credential id")):
         g = honest_flow(ctx, pw2, cred2, setup=f.setup, registration_only=True, count=True)
         ctx.expect(mk(g) != mk(f), "different %s gives an unrelated masking key" % what)
+    # identifiers a digesting / truncating key derivation would confuse with cred (no prefix relation needed)
+    import hashlib
+    rel = [hashlib.sha256(cred).digest(), hashlib.sha384(cred).digest(), hashlib.sha512(cred).digest(), cred[:64], cred[:128], cred[:255],
+           cred[1:], cred + b"\x00", cred.upper()]
+    ev0 = ctx.call("srv_reg_start", f.setup, f.reg_request, cred)
+    for cred2 in dict.fromkeys(rel):
+        if cred2 == cred:
+            continue
+        r = ctx.call("srv_reg_start", f.setup, f.reg_request, cred2)
+        ctx.expect(r.ok and ev0.ok and r.b(0)[:L.Noe] != ev0.b(0)[:L.Noe],
+                   "a related credential identifier (%d bytes for %d) evaluates under another key" % (len(cred2), len(cred)))
     for pw2 in related_passwords(pw)[:12]:
         g = honest_flow(ctx, pw2, cred, setup=f.setup, registration_only=True, count=True, stop_on_error=False)
         if g.upload is not None:
@@ -51,10 +63,32 @@ def oblivious(ctx, pw, cred):
     ctx.expect(rr.b(1)[:L.Noe] != evs[0], "another credential identifier evaluates under another key")
 
 
+def restored(ctx, pw, cred):
+    """the evaluation is a function of the seed: a setup saved and restored (native bytes, serde) evaluates exactly
+    like the live one it was saved from"""
+    ctx.nontrivial = True
+    L = ctx.L
+    t = flow_tape(ctx)
+    base = ctx.call("flow", 0, "none", t, pw, cred, None, None, None, "~", model_args=[t, pw, cred, None, None, None, "~"])
+    if not ctx.expect(base.ok, "in-memory run succeeds"):
+        return
+    o = [unhx(x) for x in base.outs[:-1]]
+    ctx.counting = True
+    r = ctx.call("srv_reg_start", o[0], o[1], cred)
+    ctx.expect(r.ok and r.b(0) == o[2], "the restored setup answers the registration request exactly as the live setup did")
+    for fmt in ("bincode", "json"):
+        s2 = persist(ctx, "ServerSetup", o[0], fmt)
+        r = ctx.call("srv_reg_start", s2, o[1], cred)
+        ctx.expect(r.ok and r.b(0) == o[2], "the setup restored through serde-%s answers as the live setup did" % fmt)
+    d = ctx.call("dec", "ServerSetup", o[0])
+    ctx.expect(d.ok and d.b(0) == o[0], "saving a restored setup gives the same bytes")
+
+
 def cases(tier, seed):
     out = []
     shapes = [(b"password", b"alice"), (b"", b""), (b"A long pass-phrase, longer than any hash block: " + b"correct horse battery staple " * 6, b"record/" * 40 + b"a"), (b"\x00", b"alice\x00")]
     for si, s in enumerate(suites_for(tier, seed)):
         for k, (pw, cred) in enumerate(shapes if tier == "thorough" else shapes[:3]):
-            out.append(dict(script=oblivious, suite=s, seed=seed * 10000 + si * 10 + k, mode="pattern", params=dict(pw=pw, cred=cred)))
+            out.append(dict(cross=["srv_reg_start", "login_finish", "srv_login_finish"], cross_limit=80, script=oblivious, suite=s, seed=seed * 10000 + si * 10 + k, mode="pattern", params=dict(pw=pw, cred=cred)))
+        out.append(dict(script=restored, suite=s, seed=seed * 10000 + si * 10 + 9, mode="pattern", params=dict(pw=b"pw", cred=b"record/" * (si + 1))))
     return out
